@@ -217,16 +217,18 @@ func modelsC19(tier string) ([]*PktModel, []int) {
 	// mock packets over three chains: C->A through B is refused by B's rules (error acknowledgement written by the relay chain)
 	relay := core3("core3-relay-refusal", props, "")
 	relay.StepCheck = Steps(CoreStepCheck, ErrorAckStepCheck)
-	depth := []int{4, 4, 5}
+	unknown := core3UnknownDestination("core3-unknown-destination", props, "")
+	unknown.StepCheck = Steps(CoreStepCheck, ErrorAckStepCheck)
+	depth := []int{4, 4, 5, 5}
 	if tier == "thorough" {
-		depth = []int{7, 6, 8}
+		depth = []int{7, 6, 8, 7}
 	}
 	// probes are expensive as real transactions: probe the states at even depths only in the quick tier
 	if tier != "thorough" {
 		nft.ProbeFilter = func(d int) bool { return d%2 == 0 }
 		mt.ProbeFilter = func(d int) bool { return d%2 == 0 }
 	}
-	return []*PktModel{nft, mt, relay}, depth
+	return []*PktModel{nft, mt, relay, unknown}, depth
 }
 
 func CheckC19(tier string) int {
